@@ -75,7 +75,8 @@ type c11mon struct {
 	curCode, curID int
 	curData        []byte
 	sentTotal      int
-	reqSinceEvent  int
+	reqSinceEvent  int // Configure-Requests sent since the last peer or administrative event
+	termSinceEvent int // Terminate-Requests sent since then (own budget: a restart-timer retransmission may precede a close at the same instant)
 	limit          int
 	assigned       net.IP
 	lastSentAt     time.Duration
@@ -100,7 +101,7 @@ func (m *c11mon) onSend(proto uint16, data []byte) {
 		m.ourReqID, m.ourReqOpts, m.peerAcked = id, append([]byte(nil), body...), false
 		m.reqSinceEvent++
 	case 5:
-		m.reqSinceEvent++
+		m.termSinceEvent++
 	case 2, 3, 4:
 		if m.curCode != 1 {
 			c.Fail("reply-shape", fmt.Sprintf("shape/%s/unsolicited-code%d", m.variant, code), "configure reply code %d sent while delivering code %d", code, m.curCode)
@@ -166,8 +167,8 @@ func (m *c11mon) onSend(proto uint16, data []byte) {
 			c.Fail("reply-shape", "shape/"+m.variant+"/id-echo", "Echo-Reply id %d for packet code %d id %d", id, m.curCode, m.curID)
 		}
 	}
-	if m.reqSinceEvent > m.limit {
-		c.Fail("termination", "termination/"+m.variant+"/too-many-requests", "%d requests sent without any peer event, configured maximum %d", m.reqSinceEvent, m.limit)
+	if m.reqSinceEvent > m.limit || m.termSinceEvent > m.limit {
+		c.Fail("termination", "termination/"+m.variant+"/too-many-requests", "%d Configure-Requests / %d Terminate-Requests sent without any peer event, configured maximum %d of each", m.reqSinceEvent, m.termSinceEvent, m.limit)
 	}
 }
 
@@ -182,6 +183,7 @@ func c11Gen(r *sim.Rand, tier string) *sim.Case {
 	cs.Knobs["rt_ms"] = int64(sim.Pick(r, 500, 1000, 3000))
 	cs.Knobs["skipmax"] = int64(sim.Pick(r, 1, 1, 2, 4, 16))
 	cs.Knobs["pool"] = int64(r.N(2)) // ipcp: 0 static, 1 pool
+	cs.Knobs["cbyield"] = int64(r.N(2)) // 1: the state-change observer yields inside the callback
 	n := r.Range(4, 14)
 	if tier == "thorough" {
 		n = r.Range(4, 30)
@@ -197,7 +199,9 @@ func c11Gen(r *sim.Rand, tier string) *sim.Case {
 	}
 	nk := 6
 	for i := 0; i < n; i++ {
-		switch r.Weighted(3, 2, 2, 2, 14, 12, 4, 4, 4, 3, 2, 2, 2, 10, 3) {
+		switch r.Weighted(3, 2, 2, 2, 14, 12, 4, 4, 4, 3, 2, 2, 2, 10, 3, 2) {
+		case 15:
+			cs.Ops = append(cs.Ops, sim.Op{K: "race", A: []int64{int64(r.N(2))}})
 		case 0:
 			cs.Ops = append(cs.Ops, sim.Op{K: "up"})
 		case 1:
@@ -286,6 +290,23 @@ func c11Run(c *sim.Ctx) {
 		}
 		m = v6Ad{sm}
 	}
+	// the automaton's own reports (state-change callbacks), in the order in which they complete
+	lastReport := ""
+	cbYield := cs.Knob("cbyield", 0) == 1
+	report := func(n string) {
+		if cbYield {
+			c.S.Pause() // an observer that takes a moment: other tasks may run meanwhile
+		}
+		lastReport = n
+	}
+	switch x := m.(type) {
+	case lcpAd:
+		x.LCPStateMachine.SetOnStateChange(func(_, n pppoe.LCPState) { report(n.String()) })
+	case ipcpAd:
+		x.IPCPStateMachine.SetOnStateChange(func(_, n pppoe.IPCPState) { report(n.String()) })
+	case v6Ad:
+		x.IPV6CPStateMachine.SetOnStateChange(func(_, n pppoe.IPV6CPState) { report(n.String()) })
+	}
 	up := false
 	peerID := 0
 	var lastPkt []byte
@@ -296,7 +317,7 @@ func c11Run(c *sim.Ctx) {
 			return // a link that is down carries no packets
 		}
 		mon.curCode, mon.curID, mon.curData = code, id, data
-		mon.reqSinceEvent = 0
+		mon.reqSinceEvent, mon.termSinceEvent = 0, 0
 		pkt := cpPacket(byte(code), byte(id), data)
 		lastPkt, lastCode = pkt, code
 		c.S.Logf("deliver %s code=%d id=%d", kind, code, id)
@@ -320,6 +341,10 @@ func c11Run(c *sim.Ctx) {
 			c.Fail("opened-without-agreement", fmt.Sprintf("opened/%s/%s/after=%s", cs.Variant, miss, op),
 				"%s reports Opened after %s but peerAckedOurLatest=%v (our id %d) weAckedPeerLatest=%v (peer id %d)",
 				cs.Variant, op, mon.peerAcked, mon.ourReqID, mon.weAcked, mon.peerReqID)
+		}
+		if lastReport == "Opened" && !opened {
+			c.Fail("opened-report", fmt.Sprintf("report/%s/opened-reported-last/after=%s", cs.Variant, op),
+				"the last state %s reported is Opened, but after %s the automaton is in %s", cs.Variant, op, m.State())
 		}
 		if opened && mustLeave {
 			c.Fail("leaves-opened", fmt.Sprintf("stillopen/%s/%s", cs.Variant, op), "%s still Opened after %s", cs.Variant, op)
@@ -447,21 +472,21 @@ func c11Run(c *sim.Ctx) {
 		switch op.K {
 		case "up":
 			up = true
-			mon.reqSinceEvent = 0
+			mon.reqSinceEvent, mon.termSinceEvent = 0, 0
 			m.Up()
 			check("up", false)
 		case "down":
 			up = false
-			mon.reqSinceEvent = 0
+			mon.reqSinceEvent, mon.termSinceEvent = 0, 0
 			mon.resetAgreement()
 			m.Down()
 			check("down", true)
 		case "open":
-			mon.reqSinceEvent = 0
+			mon.reqSinceEvent, mon.termSinceEvent = 0, 0
 			m.Open()
 			check("open", false)
 		case "close":
-			mon.reqSinceEvent = 0
+			mon.reqSinceEvent, mon.termSinceEvent = 0, 0
 			mon.resetAgreement()
 			m.Close()
 			check("close", true)
@@ -480,6 +505,36 @@ func c11Run(c *sim.Ctx) {
 			mon.peerReqID, mon.peerReqOpts, mon.peerReqCls, mon.weAcked = peerID, data, cls, false
 			deliver("rcr", 1, peerID, data)
 			check("rcr", false)
+		case "race":
+			// an administrative close / lower-layer-down from another task while the receive path
+			// is processing the peer's genuine Configure-Ack
+			if !up {
+				continue
+			}
+			if mon.ourReqID >= 0 {
+				mon.peerAcked = true
+			}
+			c.S.Fault("admin.concurrent-with-packet")
+			// two events at once: each restarts the retransmission budget, in an order the monitor cannot know
+			mon.reqSinceEvent, mon.termSinceEvent = 0, 0
+			mon.limit += 2
+			ackID, ackOpts := idFor(0), mon.ourReqOpts
+			tA := c.S.Spawn("race-pkt", nil, func() { deliver("rca", 2, ackID, ackOpts) })
+			tB := c.S.Spawn("race-admin", nil, func() {
+				if op.Arg(0) == 1 {
+					m.Down()
+				} else {
+					m.Close()
+				}
+			})
+			c.S.Join(tA, tB)
+			mon.limit -= 2
+			if op.Arg(0) == 1 {
+				up = false
+			}
+			mon.reqSinceEvent, mon.termSinceEvent = 0, 0
+			mon.resetAgreement()
+			check("race", true)
 		case "rca":
 			if !up {
 				continue
@@ -574,7 +629,7 @@ func c11Run(c *sim.Ctx) {
 			// a duplicated non-request packet (requests are re-generated by rcr/rtr)
 			mon.curCode, mon.curID = int(lastPkt[0]), int(lastPkt[1])
 			mon.curData = lastPkt[4:]
-			mon.reqSinceEvent = 0
+			mon.reqSinceEvent, mon.termSinceEvent = 0, 0
 			c.S.Fault("net.dup")
 			m.ReceivePacket(lastPkt)
 			mon.curCode = 0
@@ -607,7 +662,7 @@ func c11Run(c *sim.Ctx) {
 	}
 	// bounded termination against a peer that has gone silent
 	c.OpIdx = len(cs.Ops)
-	mon.reqSinceEvent = 0
+	mon.reqSinceEvent, mon.termSinceEvent = 0, 0
 	before := mon.sentTotal
 	c.S.Probe("silence_from_" + m.State())
 	c.S.Sleep(time.Duration(maxcfg+2)*rt + time.Second)
